@@ -66,8 +66,8 @@ TABLE = {
           "Proved for every well-formed request, phase and sort outcome: the plan handed to the compute layer is total and shape-consistent; each GP is built from its metric's own column and hyperparameters; lies last, worst value, lie noise; failures carry the lie; scaled range and sign (via C12); one-hot encoding with task column (via C09); the acquisition-function / failure-model / threshold / cost decision table; epsilon thresholds. The endpoint value is tied on every run to the compute layer evaluated on the Lean plan within 1e-8 relative plus measured rounding noise.",
           "Numeric GP/EI/PF evaluation is delegated to C02/C03/C05; qEI is seed-matched; ties on which the property is silent (argsort among equal lies, epsilon label on an exact tie) handled liberally.", "3/C06"),
   "C04": ("Lean 4 + Mathlib HasDerivAt proofs over the polymorphic Arith model (Real for theorems, Float executed bit-exactly) + Richardson/Ridders finite-difference oracle on the implementation + model-vs-library correspondence for all gradient entry points",
-          "Proved for all dimensions, points (incl. coincident), hyperparameters, weights and list lengths that every modelled gradient is the derivative of its value: radial kernels (input, length scale, alpha), multitask product rule, polynomial and GP mean/variance gradients, GP sum, sqrt-var, EI (Gaussian Phi' = phi and z Phi + phi >= 0 proved), AEI penalty, EI x penalty, logistic / CDF / product success probabilities, cost scaling, Parzen ratio, log-domain chain rule.",
-          "Not proved: the general-n likelihood trace formula (n=1 only; compared numerically), symmetry of K^-1 (hypothesis), IEEE rounding; variance-clamp and exponent-cap regions stated as implemented; scipy ndtr = Gaussian CDF is trusted.", "3/C04"),
+          "Proved for all dimensions, points (incl. coincident), hyperparameters, weights and list lengths that every modelled gradient is the derivative of its value: radial kernels (input, length scale, alpha), multitask product rule, polynomial and GP mean/variance gradients, GP sum, sqrt-var, EI (Gaussian Phi' = phi and z Phi + phi >= 0 proved), AEI penalty, EI x penalty, logistic / CDF / product success probabilities, cost scaling, Parzen ratio, log-domain chain rule; and, for every number of observations, the log-marginal-likelihood gradient -a'dK a + tr(K^-1 dK) (Jacobi's formula and the derivative of the matrix inverse proved from Mathlib's determinant; zero mean and GLS polynomial mean; the library's optional non-zero-mean correction term proved identically zero).",
+          "Not proved: that the floating-point Cholesky/solves give the exact K^-1 quantities the likelihood theorems speak of (compared numerically), symmetry of K^-1 in gp_var_grad (hypothesis), IEEE rounding; variance-clamp and exponent-cap regions stated as implemented; scipy ndtr = Gaussian CDF is trusted.", "3/C04"),
   "C11": ("Lean 4 theorems over Mathlib matrices (all sizes) plus an exact Rat list model with run-time certified inverse and LDL^T determinant, bridged by soundness theorems; hand models of the search box, packing, multistart loop and per-metric loop; correspondence through compute_log_likelihood, hyperparameters, the box builder, MultistartOptimizer.optimize and the hyper-opt endpoint with class-level recorders",
           "Proved for all n and m: GLS normal equations, quad >= 0, code expression = -s (r^T K^-1 r + log det K) via the Cholesky log-det, log/linear identity, set/get identity both ways, box rows 0<lo<hi and row count, unpack(pack h) = h and structure, multistart returns an in-box successful end point or the first start and always returns, untouched rule for stored/constant metrics, each job gets its own metric's scaled data at the successful rows.",
           "Not modelled: IEEE rounding (kappa-aware tolerance), SLSQP internals (oracle of the multistart theorems; observed per run), kernel values (C03); hyperBox_wf assumes ascending grids.", "3/C11"),
